@@ -13,11 +13,13 @@ Feats == {"std", "alloc"}
 Fams == {"future_group", "stream_group"}
 
 CfgsQuick ==
+  {[reuse |-> TRUE] @@ Mk(fa, "keyed", 0, f, <<>>, B(FALSE, 1, 1, 1, 0, 1, 0, FALSE, FALSE, FALSE, 1, 0, 0)) : fa \in Fams, f \in Feats} \cup
   {Mk(fa, "keyed", 0, f, <<>>, B(FALSE, 1, 1, 1, 1, 0, 1, FALSE, FALSE, FALSE, 2, 1, 0)) : fa \in Fams, f \in Feats}
   \cup {Mk(fa, "plain", 1, "std", <<>>, B(FALSE, 1, 1, 1, 0, 0, 0, TRUE, TRUE, FALSE, 2, 0, 1)) : fa \in Fams}
   \cup {Mk(fa, "keyed", 0, f, <<0>>, B(FALSE, 1, 1, 1, 0, 0, 0, FALSE, FALSE, FALSE, 2, 0, 0)) : fa \in Fams, f \in Feats}
 
 CfgsThorough ==
+  CfgsQuick \cup
   {Mk(fa, "keyed", 0, f, <<>>, B(FALSE, 1, 1, 2, 1, 1, 1, TRUE, TRUE, FALSE, 2, 1, 0)) : fa \in Fams, f \in Feats}
   \cup {Mk(fa, "plain", 1, "std", <<>>, B(FALSE, 1, 1, 1, 1, 0, 0, FALSE, FALSE, FALSE, 3, 1, 1)) : fa \in Fams}
   \cup {Mk(fa, "keyed", 0, f, <<0>>, B(FALSE, 1, 1, 1, 0, 1, 1, FALSE, FALSE, FALSE, 2, 0, 0)) : fa \in Fams, f \in Feats}
